@@ -27,6 +27,10 @@ def _diffkeys(a, b):
 def signature(plan, rec):
     d = rec.get("detail", {}) or {}
     extra = ()
+    if rec.get("facet") == "res.faults":
+        f = (d.get("obs") or {}).get("faults", {})
+        bad = sorted({(r[1], r[2], r[3], r[4]) for r in f.get("runs", []) if not (r[2] == 1 and r[3] == 0 and r[4] == 1)})
+        return (rec.get("facet"), rec.get("op"), f.get("fmt"), json.dumps(bad))
     if isinstance(d, dict) and "exp" in d and "obs" in d:
         extra = tuple(_diffkeys(d["exp"], d["obs"]))
     elif isinstance(d, dict) and d.get("hint"):
@@ -153,9 +157,9 @@ PLANS["C13"] = {
 }
 
 
-def _rmc(fmt, cells, rows, cols, aligns, decors, hdr, html="{}"):
+def _rmc(fmt, cells, rows, cols, aligns, decors, hdr, html="{}", writer=False):
     return dict(Fmt=fmt, CellNames=Raw(cells), MaxCols=cols, MaxRows=rows, AlignVals=Raw(aligns), DecorNames=Raw(decors),
-                HdrChoices=Raw(hdr), HtmlChoices=Raw(html))
+                HdrChoices=Raw(hdr), HtmlChoices=Raw(html), CheckWriter=writer)
 
 
 def _textmc(cells, rows, cols, aligns, decors, hdr):
@@ -351,5 +355,29 @@ PLANS["C14"] = {
     "assumptions": [
         "no user callbacks are registered (the statement excludes callbacks that fail or mutate)",
         "first-output identity is kept by the driver per (content version, format, decoration, html options)",
+    ],
+}
+
+
+
+def _fmc(fmt, cells, decors='{}', html='{}', rows=2):
+    o = {"extra": ["-swapfinal", "faultsweep"]}
+    return {"module": "MCRender",
+            "quick": _rmc(fmt, cells, rows, 2, "{}", decors, "{0, 1, 2}", html, True),
+            "thorough": _rmc(fmt, cells, rows + 1, 2, "{}", decors, "{0, 1, 2}", html, True),
+            "run_opts": o}
+
+
+PLANS["C15"] = {
+    "facets": "none",
+    "own": ["res.faults"],
+    "level": "fault_enumeration",
+    "mc": [_fmc("text", '{"a", "m"}', '{"default", "none"}'), _fmc("csv", '{"E", "x"}'), _fmc("json", '{"x", "U"}'),
+           _fmc("md", '{"E", "x"}'), _fmc("html", '{"x"}', html='{"none", "all"}', rows=1)],
+    "random": [{"gen": gens.gen_faults, "run_opts": {"every": False}}],
+    "min_scenarios": {"quick": 1000, "thorough": 20000},
+    "assumptions": [
+        "the scripted writer covers: fails from call k on, fails only at call k, partial write (half accepted) with error at call k, for every k up to the fault-free call count",
+        "prefix test by bytes.HasPrefix against the same wrapper's fault-free output",
     ],
 }
